@@ -2,6 +2,7 @@ import FlVerif.Op.Session
 import FlVerif.Props.C12
 import FlVerif.Lemmas.CodeSessionRestart
 import FlVerif.Lemmas.CodeEngineIOVar
+import FlVerif.Lemmas.CodeWave5YCtor
 
 /-! # C13 — Processing is history-free; restart and copy give clean independent engines -/
 
@@ -193,6 +194,176 @@ theorem code_copy (s : Sess Rat) :
 /-- a copy behaves like the original: every command sequence gives the same states and observations -/
 theorem copy_same_behaviour (F : Fn α) (s : Sess α) (cmds : List (Cmd α)) :
     Op.Session.run F (Op.Session.copy s) cmds = Op.Session.run F s cmds := rfl
+
+/-! ## Tie A: constructors
+
+The constructors of the component classes, regenerated from the current source as record builders
+(`Gen/CodeWave5YCtor.lean`): every argument is stored in the attribute of the same name; a list argument
+(`Iterable | None`) is stored as a **new** list with the same items (`Py.W5Y.Stored.isNew = true`: `list(x or [])`, or a
+list literal that is then extended – the field has the type `Stored`, so storing the caller's own list would not
+type-check), `None` as no items.  What a constructor computes besides is stated field by field.  The defaults of the
+signatures are regenerated with the code (`*.dflt_*`; the `*_defaults` theorems state the documented values).  The copy
+of an engine (`code_copy`), the FLL round trip (C14) and the Python export (C15) rest on these laws. -/
+
+section constructors
+open Gen.Code Py.W5Y
+
+theorem code_variableInit {T : Type} [Inhabited T] (name description : String) (enabled : Bool) (minimum maximum : X Rat)
+    (lock_range : Bool) (terms : Option (List T)) (σ0 : Variable_init.S T) :
+    ∃ σ, Variable_init.run name description enabled minimum maximum lock_range terms σ0 = .ok σ ∧
+      σ.self_name = name ∧ σ.self_description = description ∧ σ.self_enabled = enabled ∧ σ.self_minimum = minimum ∧
+      σ.self_maximum = maximum ∧ σ.self_lock_range = lock_range ∧ σ.self_terms = ⟨terms.getD [], true⟩ ∧
+      σ.self__value = .nan :=
+  Py.W5Y.code_variableInit name description enabled minimum maximum lock_range terms σ0
+
+theorem code_inputVariableInit {T : Type} [Inhabited T] (name description : String) (enabled : Bool) (minimum maximum : X Rat)
+    (lock_range : Bool) (terms : Option (List T)) (σ0 : InputVariable_init.S T) :
+    ∃ σ, InputVariable_init.run name description enabled minimum maximum lock_range terms σ0 = .ok σ ∧
+      σ.self_name = name ∧ σ.self_description = description ∧ σ.self_enabled = enabled ∧ σ.self_minimum = minimum ∧
+      σ.self_maximum = maximum ∧ σ.self_lock_range = lock_range ∧ σ.self_terms = ⟨terms.getD [], true⟩ ∧
+      σ.self__value = .nan :=
+  Py.W5Y.code_inputVariableInit name description enabled minimum maximum lock_range terms σ0
+
+theorem code_aggregatedInit {N A : Type} [Inhabited N] [Inhabited A] (name : String) (minimum maximum : X Rat)
+    (aggregation : Option N) (terms : Option (List A)) (σ0 : Aggregated_init.S N A) :
+    ∃ σ, Aggregated_init.run name minimum maximum aggregation terms σ0 = .ok σ ∧
+      σ.self_name = name ∧ σ.self_height = .fin 1 ∧ σ.self_minimum = minimum ∧ σ.self_maximum = maximum ∧
+      σ.self_aggregation = aggregation ∧ σ.self_terms = ⟨terms.getD [], true⟩ :=
+  Py.W5Y.code_aggregatedInit name minimum maximum aggregation terms σ0
+
+theorem code_outputVariableInit {T D : Type} [Inhabited T] [Inhabited D] (name description : String) (enabled : Bool)
+    (minimum maximum : X Rat) (lock_range lock_previous : Bool) (default_value : X Rat) (aggregation : Option String)
+    (defuzzifier : Option D) (terms : Option (List T)) (σ0 : OutputVariable_init.S T D) :
+    ∃ σ, OutputVariable_init.run name description enabled minimum maximum lock_range lock_previous default_value
+        aggregation defuzzifier terms σ0 = .ok σ ∧
+      σ.self_name = name ∧ σ.self_description = description ∧ σ.self_enabled = enabled ∧
+      σ.self_lock_range = lock_range ∧ σ.self_lock_previous = lock_previous ∧ σ.self_default_value = default_value ∧
+      σ.self_defuzzifier = defuzzifier ∧ σ.self_terms = ⟨terms.getD [], true⟩ ∧
+      σ.self__value = .nan ∧ σ.self_previous_value = .nan ∧
+      σ.self_fuzzy = { self_name := name, self_height := .fin 1, self_minimum := minimum, self_maximum := maximum,
+                       self_aggregation := aggregation, self_terms := ⟨[], true⟩ } :=
+  Py.W5Y.code_outputVariableInit name description enabled minimum maximum lock_range lock_previous default_value aggregation defuzzifier terms σ0
+
+theorem code_termInit5 (name : String) (height : X Rat) (σ0 : Term_init5.S) :
+    ∃ σ, Term_init5.run name height σ0 = .ok σ ∧ σ.self_name = name ∧ σ.self_height = height :=
+  Py.W5Y.code_termInit5 name height σ0
+
+theorem code_activatedSetDegree (value : X Rat) (σ0 : Activated_set_degree.S) :
+    ∃ σ, Activated_set_degree.run value σ0 = .ok σ ∧ σ.self__degree = X.nanToNum01 value :=
+  Py.W5Y.code_activatedSetDegree value σ0
+
+theorem code_activatedInit {T N : Type} [Inhabited T] [Inhabited N] (tm : T) (degree : X Rat) (implication : Option N)
+    (σ0 : Activated_init.S T N) :
+    ∃ σ, Activated_init.run tm degree implication σ0 = .ok σ ∧ σ.self_name = "_" ∧ σ.self_height = .fin 1 ∧
+      σ.self_term = tm ∧ σ.self__degree = X.nanToNum01 degree ∧ σ.self_implication = implication :=
+  Py.W5Y.code_activatedInit tm degree implication σ0
+
+theorem code_propositionInit {V H T : Type} [Inhabited V] [Inhabited H] [Inhabited T] (var : Option V)
+    (hedges : Option (List H)) (tm : Option T) (σ0 : Proposition_init.S V H T) :
+    ∃ σ, Proposition_init.run var hedges tm σ0 = .ok σ ∧ σ.self_variable = var ∧
+      σ.self_hedges = ⟨hedges.getD [], true⟩ ∧ σ.self_term = tm :=
+  Py.W5Y.code_propositionInit var hedges tm σ0
+
+theorem code_operatorInit {E : Type} [Inhabited E] (name : String) (right left : Option E) (σ0 : Operator_init.S E) :
+    ∃ σ, Operator_init.run name right left σ0 = .ok σ ∧ σ.self_name = name ∧ σ.self_right = right ∧ σ.self_left = left :=
+  Py.W5Y.code_operatorInit name right left σ0
+
+theorem code_antecedentInit {E : Type} [Inhabited E] (text : String) (σ0 : Antecedent_init.S E) :
+    ∃ σ, Antecedent_init.run text σ0 = .ok σ ∧ σ.self_text = text ∧ σ.self_expression = none :=
+  Py.W5Y.code_antecedentInit text σ0
+
+theorem code_consequentInit {P : Type} [Inhabited P] (text : String) (σ0 : Consequent_init.S P) :
+    ∃ σ, Consequent_init.run text σ0 = .ok σ ∧ σ.self_text = text ∧ σ.self_conclusions = ⟨[], true⟩ :=
+  Py.W5Y.code_consequentInit text σ0
+
+theorem code_ruleInit {E P : Type} [Inhabited E] [Inhabited P] (enabled : Bool) (weight : X Rat)
+    (antecedent : Option (Antecedent_init.S E)) (consequent : Option (Consequent_init.S P)) (σ0 : Rule_init.S E P) :
+    ∃ σ, Rule_init.run enabled weight antecedent consequent σ0 = .ok σ ∧ σ.self_enabled = enabled ∧
+      σ.self_weight = weight ∧ σ.self_activation_degree = .fin 0 ∧ σ.self_triggered = false ∧
+      σ.self_antecedent = antecedent.getD { self_text := "", self_expression := none } ∧
+      σ.self_consequent = consequent.getD { self_text := "", self_conclusions := ⟨[], true⟩ } :=
+  Py.W5Y.code_ruleInit enabled weight antecedent consequent σ0
+
+theorem code_ruleCreate {E P G : Type} [Inhabited E] [Inhabited P] [Inhabited G]
+    (parse : String → Rule_init.S E P → Py.M (Rule_init.S E P)) (load : G → Rule_init.S E P → Py.M (Rule_init.S E P))
+    (text : String) (engine : Option G) :
+    match parse text (freshRule E P) >>= fun r => (match engine with | some g => load g r | none => .ok r) with
+    | .error e => Rule_create.run parse load text engine {} = .error e
+    | .ok r => ∃ σ, Rule_create.run parse load text engine {} = .ok σ ∧ σ.ret = some r :=
+  Py.W5Y.code_ruleCreate parse load text engine
+
+theorem code_ruleBlockInit {N M A R : Type} [Inhabited N] [Inhabited M] [Inhabited A] [Inhabited R]
+    (name description : String) (enabled : Bool) (conjunction : Option N) (disjunction : Option M) (implication : Option N)
+    (activation : Option A) (rules : Option (List R)) (σ0 : RuleBlock_init.S N M A R) :
+    ∃ σ, RuleBlock_init.run name description enabled conjunction disjunction implication activation rules σ0 = .ok σ ∧
+      σ.self_name = name ∧ σ.self_description = description ∧ σ.self_enabled = enabled ∧
+      σ.self_conjunction = conjunction ∧ σ.self_disjunction = disjunction ∧ σ.self_implication = implication ∧
+      σ.self_activation = activation ∧ σ.self_rules = ⟨rules.getD [], true⟩ :=
+  Py.W5Y.code_ruleBlockInit name description enabled conjunction disjunction implication activation rules σ0
+
+theorem variable_defaults :
+    Variable_init.dflt_name = "" ∧ Variable_init.dflt_description = "" ∧ Variable_init.dflt_enabled = true ∧
+    Variable_init.dflt_minimum = .ninf ∧ Variable_init.dflt_maximum = .pinf ∧ Variable_init.dflt_lock_range = false ∧
+    (Variable_init.dflt_terms : Option (List Unit)) = none ∧
+    InputVariable_init.dflt_name = "" ∧ InputVariable_init.dflt_description = "" ∧ InputVariable_init.dflt_enabled = true ∧
+    InputVariable_init.dflt_minimum = .ninf ∧ InputVariable_init.dflt_maximum = .pinf ∧
+    InputVariable_init.dflt_lock_range = false ∧ (InputVariable_init.dflt_terms : Option (List Unit)) = none :=
+  Py.W5Y.variable_defaults 
+
+theorem outputVariable_defaults :
+    OutputVariable_init.dflt_name = "" ∧ OutputVariable_init.dflt_description = "" ∧ OutputVariable_init.dflt_enabled = true ∧
+    OutputVariable_init.dflt_minimum = .ninf ∧ OutputVariable_init.dflt_maximum = .pinf ∧
+    OutputVariable_init.dflt_lock_range = false ∧ OutputVariable_init.dflt_lock_previous = false ∧
+    OutputVariable_init.dflt_default_value = .nan ∧ OutputVariable_init.dflt_aggregation = none ∧
+    (OutputVariable_init.dflt_defuzzifier : Option Unit) = none ∧ (OutputVariable_init.dflt_terms : Option (List Unit)) = none :=
+  Py.W5Y.outputVariable_defaults 
+
+theorem rule_defaults :
+    Rule_init.dflt_enabled = true ∧ Rule_init.dflt_weight = .fin 1 ∧
+    (Rule_init.dflt_antecedent : Option (Antecedent_init.S Unit)) = none ∧
+    (Rule_init.dflt_consequent : Option (Consequent_init.S Unit)) = none ∧
+    Antecedent_init.dflt_text = "" ∧ Consequent_init.dflt_text = "" ∧ (Rule_create.dflt_engine : Option Unit) = none ∧
+    RuleBlock_init.dflt_name = "" ∧ RuleBlock_init.dflt_description = "" ∧ RuleBlock_init.dflt_enabled = true ∧
+    (RuleBlock_init.dflt_conjunction : Option Unit) = none ∧ (RuleBlock_init.dflt_disjunction : Option Unit) = none ∧
+    (RuleBlock_init.dflt_implication : Option Unit) = none ∧ (RuleBlock_init.dflt_activation : Option Unit) = none ∧
+    (RuleBlock_init.dflt_rules : Option (List Unit)) = none :=
+  Py.W5Y.rule_defaults 
+
+theorem engine_defaults :
+    Engine_init.dflt_name = "" ∧ Engine_init.dflt_description = "" ∧
+    (Engine_init.dflt_input_variables : Option (List Unit)) = none ∧
+    (Engine_init.dflt_output_variables : Option (List Unit)) = none ∧
+    (Engine_init.dflt_rule_blocks : Option (List Unit)) = none ∧ Engine_init.dflt_load = true :=
+  Py.W5Y.engine_defaults 
+
+theorem term_defaults :
+    Term_init5.dflt_name = "" ∧ Term_init5.dflt_height = .fin 1 ∧ Activated_init.dflt_degree = .fin 1 ∧
+    (Activated_init.dflt_implication : Option Unit) = none ∧ Aggregated_init.dflt_name = "" ∧
+    Aggregated_init.dflt_minimum = .nan ∧ Aggregated_init.dflt_maximum = .nan ∧
+    (Aggregated_init.dflt_aggregation : Option Unit) = none ∧ (Aggregated_init.dflt_terms : Option (List Unit)) = none ∧
+    (Proposition_init.dflt_variable_ : Option Unit) = none ∧ (Proposition_init.dflt_hedges : Option (List Unit)) = none ∧
+    (Proposition_init.dflt_term_ : Option Unit) = none ∧ Operator_init.dflt_name = "" ∧
+    (Operator_init.dflt_right : Option Unit) = none ∧ (Operator_init.dflt_left : Option Unit) = none :=
+  Py.W5Y.term_defaults 
+
+/-- `Engine.__init__`: name, description and new lists of the three kinds of components; with `load` (the default) the
+    references of all terms are updated – input variables first, then output variables, each variable's terms in order
+    (`σ.updated`: the terms `update_reference(self)` was called on) – and then the rule blocks are loaded in order
+    (`σ.loaded`: the blocks as `load_rules(self)` left them; `loadRules` is what `RuleBlock.load_rules` does or raises,
+    `C16.code_loadRules`): the first block that raises ends the construction with its exception.  Without `load`
+    nothing else happens. -/
+theorem code_engineInit {V T B : Type} [Inhabited V] [Inhabited T] [Inhabited B] (termsOf : V → List T)
+    (loadRules : B → Py.M B) (name description : String) (ivs ovs : Option (List V)) (rbs : Option (List B)) (load : Bool) :
+    match (if load then (rbs.getD []).mapM loadRules else .ok []) with
+    | .error e => Engine_init.run termsOf loadRules name description ivs ovs rbs load {} = .error e
+    | .ok bs' => ∃ σ, Engine_init.run termsOf loadRules name description ivs ovs rbs load {} = .ok σ ∧
+        σ.self_name = name ∧ σ.self_description = description ∧
+        σ.self_input_variables = ⟨ivs.getD [], true⟩ ∧ σ.self_output_variables = ⟨ovs.getD [], true⟩ ∧
+        σ.self_rule_blocks = ⟨rbs.getD [], true⟩ ∧
+        σ.updated = (if load then (ivs.getD [] ++ ovs.getD []).flatMap termsOf else []) ∧ σ.loaded = bs' :=
+  Py.W5Y.code_engineInit termsOf loadRules name description ivs ovs rbs load
+
+end constructors
 
 /-! ## non-vacuity -/
 example : (restart ({ engine := { inputs := [], outputs := [], blocks := [] }, outs := [] } : Sess ℚ)).outs = [] := rfl
